@@ -1,7 +1,7 @@
 (* C12 - negotiated parse configuration matches the capabilities both sides sent.
    Gen/Merge.v (the seven merge arms and the rx rule) is regenerated from /repo on every run. *)
 From Coq Require Import List NArith Bool.
-From RC Require Import Base.Res Base.Wire Gen.Merge Model.Negotiate Proofs.NegotiateProofs Proofs.C12Proofs Proofs.C12Live Gen.FsmTable Model.Fsm Proofs.C08Proofs.
+From RC Require Import Base.Res Base.Wire Gen.Merge Model.Negotiate Proofs.NegotiateProofs Proofs.C12Proofs Proofs.C12Live Proofs.C12Reneg Gen.FsmTable Model.Fsm Proofs.C08Proofs.
 Import ListNotations.
 Open Scope N_scope.
 
@@ -125,3 +125,35 @@ Theorem c12_live_session_fsm : forall s o b caps l,
   Ok (s_sc (fst (open_accept s o b))) = live_session_config (s_local_ap s) caps.
 Proof. exact c12_live_fsm_proof. Qed.
 Print Assumptions c12_live_session_fsm.
+
+(* the live session the second time round: a Session in any state - whatever it negotiated before - gets a new socket
+   (Session::attach_stream: Fsm.attach_stream); after any history of events and messages on it that are not an OPEN (hrun over
+   quiet steps: timers, transport events, operator events, KEEPALIVE / UPDATE / NOTIFICATION / ROUTE-REFRESH), if the connection
+   is still there the accepted OPEN yields live_session_config of the configured families and that OPEN - and therefore, by
+   c12_live_is_pair, the OPEN-pair derivation for the two OPENs of this connection.  Nothing of an earlier negotiation enters. *)
+Theorem c12_renegotiation : forall s hs o b caps l,
+  forallb quiet hs = true ->
+  s_conn (hrun (fst (attach_stream s)) hs) = true ->
+  op_allowed o = true -> addpath_families_vec caps = Ok l -> op_addpath o = Ok l -> op_four o = four_octet_capable caps ->
+  Ok (s_sc (fst (open_accept (hrun (fst (attach_stream s)) hs) o b))) = live_session_config (s_local_ap s) caps.
+Proof. exact c12_renegotiation_proof. Qed.
+Print Assumptions c12_renegotiation.
+
+(* non-vacuity: a session that negotiated ADD-PATH both ways for IPv4 unicast and reached Established loses its connection, is
+   started again and gets a new socket; two quiet steps later the peer's OPEN offers "send" for IPv6 unicast only: the
+   new connection receives path ids for IPv6 unicast and none for IPv4 unicast *)
+Example c12_renegotiation_example :
+  let o1 := mkOpen true 90 [10;0;0;2] 65001 (Ok [((1, 1), 3)]) true in
+  let o2 := mkOpen true 90 [10;0;0;2] 65001 (Ok [((2, 1), 2)]) false in
+  let run s h := hrun s h in
+  let s0 := init false true 90 [(1, 1); (2, 1)] in
+  let s1 := run s0 [HEvent EManualStartWithPassiveTcpEstablishment; HEvent ETcpConnectionConfirmed] in
+  let s2 := fst (handle_msg s1 (WOpen o1)) in
+  let s3 := run s2 [HMsg WKeepalive; HMsg (WUpdate 1); HEvent ETcpConnectionFails; HEvent EManualStartWithPassiveTcpEstablishment] in
+  let s4 := run (fst (attach_stream s3)) [HEvent EManualStart; HMsg WRouteRefresh] in
+  (get_addpath (s_sc s2) (1, 1) = Some 3) /\ (s_st s3 = SActive) /\ (s_conn s3 = false) /\
+  (s_conn s4 = true) /\ (s_st s4 = SOpenSent) /\
+  (get_addpath (s_sc (fst (open_accept s4 o2 false))) (1, 1) = None) /\
+  (get_addpath (s_sc (fst (open_accept s4 o2 false))) (2, 1) = Some 1) /\
+  (sc_four (s_sc (fst (open_accept s4 o2 false))) = false).
+Proof. vm_compute. repeat split; reflexivity. Qed.
